@@ -311,6 +311,12 @@ def r6(ctx: Ctx) -> None:
     sets = [n for n in g.nodes if n.kind == "stmt" and isinstance(n.ast, ast.Assign) and norm_text(n.ast.targets[0]) == "self._pos"]
     ctx.ob("C20.R6", sk, "negative position raises before the position is stored", neg[0] if neg else None,
            ok and bool(sets) and all(any(b.id in dom[s.id] for b in neg) for s in sets), "a negative position is an error")
+    news = [n for n in g.nodes if n.kind == "stmt" and isinstance(n.ast, ast.Assign) and norm_text(n.ast.targets[0]) == "new"]
+    plain = {"offset", "self._pos + offset", "self._size + offset", "offset + self._pos", "offset + self._size"}
+    odd = [n for n in news if norm_text(n.ast.value) not in plain]  # type: ignore[union-attr]
+    ctx.ob("C20.R6", sk, "target position is plain arithmetic (no clamping that hides a negative position)", odd[0] if odd else (news[0] if news else None),
+           bool(news) and not odd, f"definitions of the target position: {[norm_text(n.ast.value) for n in news]}"  # type: ignore[union-attr]
+           + ("; a clamped position makes seek(-k, SEEK_END) past the start succeed where a local file raises" if odd else ""))
     rs = [n for n in g.nodes if n.kind == "raise" and n.raised == "ValueError"]
     whence_br = [b for b in g.nodes if b.kind == "branch" and "whence" in b.text]
     ok = len(whence_br) >= 3 and len(rs) >= 2
